@@ -598,7 +598,7 @@ func gen(tier string, r *lib.Rand, emit func(string)) {
 	perCfg := 2
 	if thorough {
 		sizes = []int{24, 48, 64, 96, 128, 192, 256, 384, 512}
-		perCfg = 12
+		perCfg = 8
 	}
 	fam := 0
 	for round := 0; round < perCfg; round++ {
@@ -622,7 +622,7 @@ func gen(tier string, r *lib.Rand, emit func(string)) {
 	// single-zero gaps), so that the length chain the sequence algorithm has to find is not trivial
 	nruns := 4
 	if thorough {
-		nruns = 60
+		nruns = 40
 	}
 	for _, c := range all {
 		unbounded := c.kind == kRuns
